@@ -8,7 +8,7 @@
 From VF Require Import Base.Prelude Gen.Enums Gen.Configs Gen.Policy Gen.Registry Gen.Checks
      Gen.MatDesc Gen.InstChecks Gen.Scopes Model.Recipe Model.Check Model.Graph
      Model.Plan Model.Perform Spec.WF Proofs.ListFacts Proofs.PerformStep Proofs.ModeProofs
-     Proofs.UntouchedProofs Model.Insts Proofs.InstsCover.
+     Proofs.UntouchedProofs Model.Insts Proofs.InstsCover Proofs.ReadersProofs.
 
 (* (a) mode -> per-operand transformation, for EVERY config in one of the
    three modes (static-range: integer compute with an activation config;
@@ -196,6 +196,20 @@ Theorem C03_quantized_in_place_tensor_gets_selected_dtype :
 Proof. exact transform_graph_quantized_in_place. Qed.
 Print Assumptions C03_quantized_in_place_tensor_gets_selected_dtype.
 
+(* ... and it is still read by the same operators at the same operand slots:
+   the sequence of ORIGINAL operators (by uid, in graph order) with the
+   positions at which each reads t (`readers_profile`) is the same after the
+   whole run as before it — no instruction that names another tensor ever
+   rewires a reader of t, and inserted operators never read it *)
+Theorem C03_readers_of_a_tensor_without_instruction_are_unchanged :
+  forall m tis m' k g t,
+    nth_opt (m_subgraphs m) k = Some g -> 0 <= t < ntens g ->
+    ids_ok tis -> never_names k t tis ->
+    transform_graph m tis = Ok m' ->
+    exists g', nth_opt (m_subgraphs m') k = Some g' /\ readers_profile t g' = readers_profile t g.
+Proof. exact transform_graph_readers_untouched. Qed.
+Print Assumptions C03_readers_of_a_tensor_without_instruction_are_unchanged.
+
 (* non-vacuity of the two whole-run clauses: x --op--> y; y's list is
    [QUANTIZE_TENSOR p; ADD_DEQUANTIZE p for the graph output]: y comes back
    int8 with p's annotation, x comes back untouched *)
@@ -218,9 +232,12 @@ Example C03_whole_run_nonvacuous :
   | Ok m' => option_map (fun g => map (fun t => (t_ty t, t_q t)) (sg_tensors g)) (nth_opt (m_subgraphs m') 0)
              = Some [(TY_FLOAT32, None); (TY_INT8, Some 5); (TY_FLOAT32, None)]
   | Err _ => False end /\
-  ids_ok ([] ++ wr_tis) /\ never_names 0 0 wr_tis.
+  ids_ok ([] ++ wr_tis) /\ never_names 0 0 wr_tis /\
+  match transform_graph wr_m wr_tis with
+  | Ok m' => option_map (readers_profile 0) (nth_opt (m_subgraphs m') 0) = Some [(0, [true])]
+  | Err _ => False end.
 Proof.
-  split; [vm_compute; reflexivity|]. split.
+  split; [vm_compute; reflexivity|]. split; [|split; [|vm_compute; reflexivity]].
   - repeat constructor; cbn; lia.
   - intros ti i [<-|[]] _ [<-|[<-|[]]] _; cbn; lia.
 Qed.
